@@ -362,6 +362,10 @@ def _has_uf(x):
 def definite_diff(a, b):
     """is there a differing component in which no uninterpreted call takes part?  (an uninterpreted call on one
     side against a modelled value on the other decides nothing)"""
+    def is_uf(x):
+        return isinstance(x, (tuple, list)) and len(x) >= 2 and x[0] == "Opaque" and x[1] == "uf"
+    if is_uf(a) or is_uf(b):
+        return False
     if type(a) != type(b) or not isinstance(a, (tuple, list)):
         return a != b and not _has_uf(a) and not _has_uf(b)
     if len(a) != len(b):
